@@ -72,24 +72,61 @@ def install(w):
             _experimental_directives_on_directive_definitions="bool")
     w.shape("StringValueNode", value="str", block="bool", kind="str", loc="opaque")
 
-    # Lexer.advance/lookahead: assumed here (their loop over the linked token list needs an object
-    # invariant of the chain: "the cursor line/line_start belong to the end of the last token of
-    # the chain", an inductive property of a linked structure that is outside the engine's
-    # reach); the readers they call are verified (contracts/lexer.py)
+    # Lexer.advance / lookahead walk and extend the linked chain of tokens.  The invariant of that
+    # structure - every token lies within the body and does not end inside a CR LF pair, and the
+    # cursor (line, line_start) of the lexer belongs to the end of the LAST token of the chain - is
+    # assumed for the lexer's current token at calls (class invariant) and for every token read
+    # through `.next` (structure invariant); what is verified is that lookahead keeps it: it calls
+    # read_next_token only at the end of the chain, with the cursor that belongs there, and links
+    # exactly the new token.  (For a SchemaCoordinateLexer the override of read_next_token is
+    # called instead; that case is not covered by this proof.)
+    w.define("TokOK", "lx, t",
+             "0 <= t.start and t.start <= t.end and t.end <= len(lx.source.body)"
+             " and not midCRLF(lx.source.body, t.end)"
+             " and implies(t.next is None, LexInv(lx, t.end))")
+    CHAIN = {"Token.next": ["TokOK(self, v)", "v.kind != TokenKind.SOF"]}
+    w.contract(f"{LX}.Lexer.lookahead", returns="obj:Token",
+               class_invariants=["TokOK(self, self.token)"],
+               ensures=["result.kind != TokenKind.COMMENT", "0 <= result.start <= result.end",
+                        "result.end <= len(self.source.body)", "TokOK(self, result)",
+                        "TokOK(self, self.token)",
+                        "result is self.token or result.kind != TokenKind.SOF",
+                        "implies(result is self.token, self.token.kind == TokenKind.EOF)"],
+               raises=["GraphQLSyntaxError"],
+               modifies=["self.line", "self.line_start", "self.next", "self.prev"],
+               field_invariants=CHAIN,
+               loops={1: {"peel": True,
+                          "invariant": ["0 <= token.start and token.start <= token.end",
+                                        "token.end <= len(self.source.body)",
+                                        "not midCRLF(self.source.body, token.end)",
+                                        "implies(token.next is None, LexInv(self, token.end))",
+                                        # the lexer's own current token: either it has been linked to
+                                        # a successor, or the cursor has not moved yet (the first
+                                        # iteration, where token IS self.token, is run peeled so the
+                                        # alias is exact: there the store token.next = next_token
+                                        # itself links self.token)
+                                        "token is self.token or self.token.next is not None",
+                                        "self.token.next is not None or (self.line == old(self.line)"
+                                        " and self.line_start == old(self.line_start))",
+                                        "token is self.token or token.kind != TokenKind.SOF"]}},
+               props={"C01", "C09"})
+    # the constructor establishes the invariant: one SOF token at offset 0, cursor at line 1
+    w.contract(f"{LX}.Lexer.__init__", params={"source": "obj:Source"},
+               ensures=["self.source is source", "TokOK(self, self.token)",
+                        "self.token.kind == TokenKind.SOF"],
+               raises=[], modifies=["self.source", "self.token", "self.last_token", "self.line",
+                                    "self.line_start"],
+               props={"C01", "C09"})
     w.contract(f"{LX}.Lexer.advance", returns="field:token",
+               class_invariants=["TokOK(self, self.token)"],
                ensures=["result.kind != TokenKind.COMMENT", "result.kind != TokenKind.SOF",
-                        "0 <= result.start <= result.end", "result.end <= len(self.source.body)"],
+                        "0 <= result.start <= result.end", "result.end <= len(self.source.body)",
+                        "TokOK(self, self.token)"],
                raises=["GraphQLSyntaxError"],
                modifies=["self.token", "self.last_token", "self.line", "self.line_start",
                          "self.next", "self.prev"],
-               assumed=True)
-    w.contract(f"{LX}.Lexer.lookahead", returns="obj:Token",
-               ensures=["result.kind != TokenKind.COMMENT", "0 <= result.start <= result.end",
-                        "result.end <= len(self.source.body)"],
-               raises=["GraphQLSyntaxError"],
-               modifies=["self.line", "self.line_start", "self.next", "self.prev"],
-               assumed=True)
-
+               field_invariants=CHAIN,
+               props={"C01", "C09"})
     # the restricted lexer of schema coordinates: same frame as Lexer.read_next_token
     w.contract(f"{SCL}.SchemaCoordinateLexer.read_next_token", params={"start": "int"},
                returns="obj:Token",
